@@ -16,6 +16,16 @@ use crate::{
 pub fn preprocess(src: &'static str) -> Result<Vec<Token>> {
     let mut res: Vec<Token> = Vec::new();
     let mut cur = Cursor::new(src);
+    // Words of data emitted so far: checked before every expansion, so that a few lines of huge
+    // `.blkw`s are refused here instead of being expanded into gigabytes of tokens first
+    let mut data_words: usize = 0;
+    let mut reserve = |count: usize| -> Result<()> {
+        data_words += count;
+        if data_words > u16::MAX as usize {
+            bail!("Program is too long: it does not fit in the 16-bit address space")
+        }
+        Ok(())
+    };
 
     loop {
         let dir = cur.advance_real()?;
@@ -41,6 +51,7 @@ pub fn preprocess(src: &'static str) -> Result<Vec<Token>> {
                 let span = dir.span.join(val.span);
                 match val.kind {
                     TokenKind::Lit(LiteralKind::Hex(lit)) => {
+                        reserve(lit as usize)?;
                         for _ in 0..lit {
                             res.push(Token::nullbyte(span));
                         }
@@ -49,6 +60,7 @@ pub fn preprocess(src: &'static str) -> Result<Vec<Token>> {
                         if lit < 0 {
                             println!("{:?}", error::preproc_bad_lit(val.span, src, true));
                         }
+                        reserve(lit as u16 as usize)?;
                         for _ in 0..lit as u16 {
                             res.push(Token::nullbyte(span));
                         }
@@ -64,7 +76,9 @@ pub fn preprocess(src: &'static str) -> Result<Vec<Token>> {
                         let str_raw = cur.get_range(val.span.into());
                         let span = dir.span.join(val.span);
                         // Get rid of quotation marks
-                        for c in unescape(&str_raw[1..str_raw.len() - 1]).chars() {
+                        let text = unescape(&str_raw[1..str_raw.len() - 1]);
+                        reserve(text.chars().count() + 1)?;
+                        for c in text.chars() {
                             res.push(Token::byte(c as u16, span));
                         }
                         res.push(Token::nullbyte(span));
